@@ -613,6 +613,7 @@ template<class F> void add_prop(std::string const& name, int nin, double tol32, 
 template<class T, class FN> void run_prop(FILE* fp, PropRec const& p, FN const& fn, const char* ty, double tol, uint64_t seed, int count, long& evals, long& fails) {
   Rng r(seed ^ std::hash<std::string>()(p.name));
   std::vector<T> in(p.nin);
+  long shown = 0;                                  // failing inputs printed per property and type (not per run: every failing property must be named)
   for (int k = 0; k < count; ++k) {
     // raw numbers: mostly uniform in [-2,2]; every 4th input vector mirrors its first half into the second
     // (parallel / antiparallel / repeated arguments), every 7th uses small integers
@@ -625,7 +626,7 @@ template<class T, class FN> void run_prop(FILE* fp, PropRec const& p, FN const& 
     ++evals;
     if (!(res <= (T)tol)) {                       // also catches NaN
       ++fails;
-      if (fails <= 5) { fprintf(fp, "PROPFAIL %s %s residual %g tol %g in", p.name.c_str(), ty, (double)res, tol);
+      if (++shown <= 3) { fprintf(fp, "PROPFAIL %s %s residual %g tol %g in", p.name.c_str(), ty, (double)res, tol);
         for (int i = 0; i < p.nin; ++i) fprintf(fp, " %.17g", (double)in[i]); fprintf(fp, "\n"); }
     }
   }
